@@ -131,3 +131,11 @@ def rule_inventory(ctx):
 
 
 RULES.append(("C05.h", "inventory: no new narrowing integer cast", rule_inventory))
+
+
+def rule_scoped_keys(ctx):
+    from . import scopedkey
+    scopedkey.rules(ctx)
+
+
+RULES.append(("C05.i", "scoped thread-local keys install, hand out and restore the right pointer: a task sees the context (worker, active-task list, simulation context) of its own executor only", rule_scoped_keys))
